@@ -1,0 +1,13 @@
+//go:build !verif
+
+package container
+
+import "github.com/criyle/go-sandbox/pkg/unixsocket"
+
+// hooks of the verification harness: no-ops unless built with the verif tag
+
+func verifEvent(side, dir, kind string) {}
+
+func verifCmdKind(c cmd) string { return "" }
+
+func verifReplyKind(r reply, m unixsocket.Msg) string { return "" }
